@@ -1260,29 +1260,35 @@ static void sec_large() {
 }
 
 // ================================================================================================ main
-struct Section { const char* name; void (*fn)(); };
+struct Section { const char* name; void (*fn)(); bool random = false; };   // random: re-run with further sub-seeds in the thorough tier
 static const Section SECTIONS[] = {
-    {"array.r", sec_array_ops<real_t>}, {"array.c", sec_array_ops<cmplx_t>}, {"idxlist.r", sec_idxlist<real_t>}, {"idxlist.c", sec_idxlist<cmplx_t>},
+    {"array.r", sec_array_ops<real_t>}, {"array.c", sec_array_ops<cmplx_t>}, {"idxlist.r", sec_idxlist<real_t>, true}, {"idxlist.c", sec_idxlist<cmplx_t>, true},
     {"print", sec_print}, {"slice.r", sec_slice<real_t>}, {"slice.c", sec_slice<cmplx_t>},
     {"fftplan", sec_fftplan}, {"fftfn", sec_fftfn}, {"czt", sec_czt},
-    {"fir.r", sec_fir<real_t>}, {"fir.c", sec_fir<cmplx_t>}, {"fftfilter", sec_fftfilter}, {"fir1", sec_fir1},
+    {"fir.r", sec_fir<real_t>, true}, {"fir.c", sec_fir<cmplx_t>, true}, {"fftfilter", sec_fftfilter, true}, {"fir1", sec_fir1},
     {"resample-tools", sec_resample_tools}, {"decim", sec_decim}, {"interp", sec_interp}, {"rateconv", sec_rateconv}, {"resample", sec_resample},
     {"math.r", sec_math_unary<real_t>}, {"math.c", sec_math_unary<cmplx_t>}, {"math2", sec_math_binary},
     {"utils.r", sec_utils_t<real_t>}, {"utils.c", sec_utils_t<cmplx_t>}, {"utils", sec_utils}, {"window", sec_window}, {"medfilt", sec_medfilt},
     {"stft", sec_stft}, {"spectrum", sec_spectrum}, {"snr", sec_snr}, {"adaptive.r", sec_adaptive<real_t>}, {"adaptive.c", sec_adaptive<cmplx_t>},
-    {"delay.r", sec_delay<real_t>}, {"delay.c", sec_delay<cmplx_t>}, {"misc", sec_misc}, {"empty", sec_empty}, {"programs", sec_programs}, {"large", sec_large},
+    {"delay.r", sec_delay<real_t>}, {"delay.c", sec_delay<cmplx_t>}, {"misc", sec_misc}, {"empty", sec_empty}, {"programs", sec_programs, true}, {"large", sec_large},
 };
 
 int main(int argc, char** argv) {
     vh::Args a(argc, argv);
     g_thorough = a.thorough;
     g_seed = a.seed;
-    std::string only = a.replay;   // --replay <section name> runs one section in-process (debugging / replay)
+    // --replay <section name> runs that section only; any other value (check.py hands over a replay FILE) runs
+    // everything again: the call programs are a deterministic function of --seed, so the witness is reproduced
+    std::string only;
+    for (const auto& s : SECTIONS) if (a.replay == s.name) only = a.replay;
     long long died = 0;
     int idx = 0;
+    const int passes = a.thorough ? 5 : 1;
+    for (int pass = 0; pass < passes; ++pass)
     for (const auto& s : SECTIONS) {
         ++idx;
         if (!only.empty() && only != s.name) continue;
+        if (pass > 0 && !s.random) continue;
         g_sh = static_cast<Shared*>(mmap(nullptr, sizeof(Shared), PROT_READ | PROT_WRITE, MAP_SHARED | MAP_ANONYMOUS, -1, 0));
         if (g_sh == MAP_FAILED) return 3;
         std::memset(g_sh, 0, sizeof(Shared));
